@@ -39,7 +39,7 @@ import (
 	"verif/harness/internal/ev"
 )
 
-const c31Rule = "sessions of 1..6 header blocks against decoders with generated settings (table size 0..64k, allowed-max changes between blocks, string limit); blocks are built representation by representation (indexed / 3 literal kinds / size update; static+dynamic+boundary indexes; Huffman and raw strings incl. long-code octets; non-minimal integers), then either left clean, byte-mutated, or given one constructed RFC violation; every block is delivered whole and split. One evaluation = one block. non-trivial: the block has >=1 Huffman string or >=1 indexed field (or is a constructed violation); distinct by settings+history length+block bytes+cuts"
+const c31Rule = "sessions of 1..6 header blocks against decoders with generated settings (table size 0..64k, allowed-max changes between blocks, string limit); blocks are built representation by representation (indexed / 3 literal kinds / size update; static+dynamic+boundary indexes; Huffman and raw strings incl. long-code octets; non-minimal integers), then either left clean, byte-mutated, or given one constructed RFC violation; every block is delivered whole and split; for a quarter of the blocks the consumer drives SetEmitEnabled the way readMetaFrame does (on before the block, off from the emit callback after the k-th field) or toggles it between Write fragments, and later blocks reference what was inserted meanwhile. One evaluation = one block. non-trivial: the block has >=1 Huffman string or >=1 indexed field (or is a constructed violation); distinct by settings+history length+block bytes+cuts"
 
 // namedKinds are the reference error kinds the property statement lists explicitly.
 var namedKinds = map[string]bool{
@@ -48,10 +48,26 @@ var namedKinds = map[string]bool{
 }
 
 type c31Step struct {
-	Allowed int64  `json:"allowed"` // -1: unchanged
-	Block   string `json:"block_hex"`
-	Cuts    []int  `json:"cuts"`
-	Intent  string `json:"intent,omitempty"`
+	Allowed int64     `json:"allowed"` // -1: unchanged
+	Block   string    `json:"block_hex"`
+	Cuts    []int     `json:"cuts"`
+	Intent  string    `json:"intent,omitempty"`
+	Emit    *emitSpec `json:"emit,omitempty"`
+}
+
+// emitSpec says how the consumer drives Decoder.SetEmitEnabled around one block. bfe's
+// Framer.readMetaFrame enables emission before a block and disables it from inside the emit
+// callback after the first invalid field; the rest of the block (further Write fragments
+// included) is decoded with emission off "to stay in sync", the connection lives on.
+type fragToggle struct {
+	At int  `json:"at"` // offset of a fragment boundary (1..len-1); SetEmitEnabled(On) is called before the fragment starting there
+	On bool `json:"on"`
+}
+
+type emitSpec struct {
+	Start    int          `json:"start"`     // before the block: -1 leave as is, 0 SetEmitEnabled(false), 1 SetEmitEnabled(true)
+	OffAfter int          `json:"off_after"` // k >= 1: the emit callback calls SetEmitEnabled(false) after the k-th emitted field; 0: never
+	Frag     []fragToggle `json:"between_fragments,omitempty"`
 }
 
 type c31Witness struct {
@@ -70,21 +86,35 @@ type c31Session struct {
 	bwOut  []hf
 	bsOut  []hf
 	stepNo int
+
+	emitOn       bool      // modelled EmitEnabled state (same for all decoders)
+	nextEmit     *emitSpec // consumed by the next feed
+	offAfter     int
+	xN, bwN, bsN int // fields emitted in the current block, per decoder
 }
 
 func newC31Session(tab uint32, maxStr int) *c31Session {
-	s := &c31Session{w: c31Witness{Tab: tab, MaxStr: maxStr}}
+	s := &c31Session{w: c31Witness{Tab: tab, MaxStr: maxStr}, emitOn: true}
 	s.ref = newRefDec(tab)
 	s.ref.maxStr = maxStr
 	s.x = xhpack.NewDecoder(tab, func(f xhpack.HeaderField) {
 		s.xOut = append(s.xOut, hf{f.Name, f.Value, f.Sensitive})
+		if s.xN++; s.xN == s.offAfter {
+			s.x.SetEmitEnabled(false)
+		}
 	})
 	s.bw = bhpack.NewDecoder(tab, func(f bhpack.HeaderField) error {
 		s.bwOut = append(s.bwOut, hf{f.Name, f.Value, f.Sensitive})
+		if s.bwN++; s.bwN == s.offAfter {
+			s.bw.SetEmitEnabled(false)
+		}
 		return nil
 	})
 	s.bs = bhpack.NewDecoder(tab, func(f bhpack.HeaderField) error {
 		s.bsOut = append(s.bsOut, hf{f.Name, f.Value, f.Sensitive})
+		if s.bsN++; s.bsN == s.offAfter {
+			s.bs.SetEmitEnabled(false)
+		}
 		return nil
 	})
 	if maxStr != 0 {
@@ -132,45 +162,108 @@ func (s *c31Session) feed(tb ev.TB, rec *ev.Rec, allowed int64, block []byte, cu
 	if allowed >= 0 {
 		s.setAllowed(uint32(allowed))
 	}
-	s.w.Steps = append(s.w.Steps, c31Step{Allowed: allowed, Block: hex.EncodeToString(block), Cuts: cuts, Intent: info.intent})
+	// emission control for this block (normalised: toggles at distinct fragment boundaries inside the block)
+	spec := emitSpec{Start: -1}
+	if s.nextEmit != nil {
+		spec = *s.nextEmit
+		s.nextEmit = nil
+	}
+	togg := map[int]bool{}
+	var toggAt []int
+	for _, t := range spec.Frag {
+		if _, dup := togg[t.At]; t.At >= 1 && t.At < len(block) && !dup {
+			togg[t.At] = t.On
+			toggAt = append(toggAt, t.At)
+		}
+	}
+	sort.Ints(toggAt)
+	spec.Frag = nil
+	for _, at := range toggAt {
+		spec.Frag = append(spec.Frag, fragToggle{at, togg[at]})
+	}
+	step := c31Step{Allowed: allowed, Block: hex.EncodeToString(block), Cuts: cuts, Intent: info.intent}
+	emitStart := s.emitOn
+	if spec.Start >= 0 {
+		emitStart = spec.Start == 1
+	}
+	emitTouched := spec.Start >= 0 || spec.OffAfter > 0 || len(toggAt) > 0
+	everOff := !emitStart || spec.OffAfter > 0 || len(toggAt) > 0 // emission may be off at some point of the block
+	if emitTouched {
+		sp := spec
+		step.Emit = &sp
+	}
+	s.w.Steps = append(s.w.Steps, step)
 	s.stepNo++
+	s.offAfter, s.xN, s.bwN, s.bsN = spec.OffAfter, 0, 0, 0
 
-	refOut, refE := s.ref.decodeBlock(block)
+	refAll, refEnds, refE := s.ref.decodeBlockEx(block)
 	refKind := ""
 	if refE != nil {
 		refKind = refE.Kind
+	}
+	// fields the consumer gets to see: a representation is parsed by the Write that completes it,
+	// i.e. after every toggle placed before its last octet
+	var refOut []hf
+	emitEnd := emitStart
+	{
+		ti, n := 0, 0
+		for i, f := range refAll {
+			for ti < len(toggAt) && toggAt[ti] < refEnds[i] {
+				emitEnd = togg[toggAt[ti]]
+				ti++
+			}
+			if emitEnd {
+				refOut = append(refOut, f)
+				if n++; n == spec.OffAfter {
+					emitEnd = false
+				}
+			}
+		}
+		for ; ti < len(toggAt); ti++ {
+			emitEnd = togg[toggAt[ti]]
+		}
+	}
+
+	// deliver: fragments at the given cuts plus the toggle offsets; SetEmitEnabled before the fragment at a toggle offset
+	deliver := func(write func([]byte) error, closeFn func() error, setEmit func(bool), cuts []int) error {
+		if spec.Start >= 0 {
+			setEmit(spec.Start == 1)
+		}
+		off := 0
+		done := map[int]bool{}
+		for _, ch := range splitAt(block, append(append([]int(nil), cuts...), toggAt...)) {
+			if on, ok := togg[off]; ok && !done[off] {
+				done[off] = true
+				setEmit(on)
+			}
+			in := append([]byte(nil), ch...) // Write must not rely on the caller keeping the slice
+			if err := write(in); err != nil {
+				return err
+			}
+			for i := range in {
+				in[i] = 0xAA
+			}
+			off += len(ch)
+		}
+		return closeFn()
 	}
 
 	s.xOut = nil
 	var xErr error
 	xPanic := ev.Try(func() {
-		if _, xErr = s.x.Write(block); xErr == nil {
-			xErr = s.x.Close()
-		}
+		xErr = deliver(func(b []byte) error { _, e := s.x.Write(b); return e }, s.x.Close, s.x.SetEmitEnabled, nil)
 	})
 	xOK := xErr == nil && xPanic == nil
 
 	s.bwOut = nil
 	var wErr error
 	wPanic, wSite := tryStack(func() {
-		in := append([]byte(nil), block...)
-		if _, wErr = s.bw.Write(in); wErr == nil {
-			wErr = s.bw.Close()
-		}
+		wErr = deliver(func(b []byte) error { _, e := s.bw.Write(b); return e }, s.bw.Close, s.bw.SetEmitEnabled, nil)
 	})
 	s.bsOut = nil
 	var sErr error
 	sPanic, sSite := tryStack(func() {
-		for _, ch := range splitAt(block, cuts) {
-			in := append([]byte(nil), ch...) // Write must not rely on the caller keeping the slice
-			if _, sErr = s.bs.Write(in); sErr != nil {
-				return
-			}
-			for i := range in {
-				in[i] = 0xAA
-			}
-		}
-		sErr = s.bs.Close()
+		sErr = deliver(func(b []byte) error { _, e := s.bs.Write(b); return e }, s.bs.Close, s.bs.SetEmitEnabled, cuts)
 	})
 
 	intent := info.intent
@@ -190,11 +283,23 @@ func (s *c31Session) feed(tb ev.TB, rec *ev.Rec, allowed int64, block []byte, cu
 	if s.stepNo > 1 {
 		classes = append(classes, "after-history")
 	}
+	if emitTouched {
+		classes = append(classes, "emit-control")
+		if spec.OffAfter > 0 && len(refOut) >= spec.OffAfter && len(refAll) > len(refOut) {
+			classes = append(classes, "emit-disabled-mid-block-by-callback")
+		}
+		if len(toggAt) > 0 {
+			classes = append(classes, "emit-toggled-between-fragments")
+		}
+	}
+	if refE == nil && len(refAll) > len(refOut) {
+		classes = append(classes, "fields-dropped-while-emit-off")
+	}
 	if len(s.ref.dyn) > 0 {
 		classes = append(classes, "dyn-table-nonempty")
 	}
 	nt := info.huff || info.indexed || (info.intent != "" && info.intent != "mutated")
-	rec.Case(fmt.Sprintf("%d/%d/%d/%d/%x/%v", s.w.Tab, s.w.MaxStr, s.stepNo, allowed, block, cuts), nt, classes...)
+	rec.Case(fmt.Sprintf("%d/%d/%d/%d/%x/%v/%v", s.w.Tab, s.w.MaxStr, s.stepNo, allowed, block, cuts, step.Emit), nt, classes...)
 
 	if wPanic != nil || sPanic != nil {
 		site := wSite
@@ -209,6 +314,12 @@ func (s *c31Session) feed(tb ev.TB, rec *ev.Rec, allowed int64, block []byte, cu
 		rec.Class("xnet-panic")
 	}
 
+	if refE != nil && everOff && !refE.Inc && (refKind == kHuffPadLong || refKind == kHuffPadBits || refKind == kHuffEOS || refKind == kStrLen) {
+		// documented (readString): with emission disabled the strings of literals that are not
+		// added to the table are not decompressed, so their Huffman / length errors go unnoticed.
+		rec.Class("unasserted:string-error-in-dropped-literal:" + refKind)
+		return false
+	}
 	mustErr := false
 	switch {
 	case refE != nil && !xOK:
@@ -270,6 +381,29 @@ func (s *c31Session) feed(tb ev.TB, rec *ev.Rec, allowed int64, block []byte, cu
 	if refE == nil && xOK && wErr != nil {
 		rec.Class("bfe-stricter-than-oracles")
 	}
+	if refE == nil && wErr == nil && sErr == nil {
+		// RFC 7541 4.x: the decoder's table after the block (whatever was emitted or dropped)
+		for _, d := range []struct {
+			name string
+			dec  *bhpack.Decoder
+		}{{"whole", s.bw}, {"split", s.bs}} {
+			ents, size, max, _ := d.dec.VerifDynTab()
+			same := len(ents) == len(s.ref.dyn) && size == s.ref.size && max == s.ref.max
+			for i := 0; same && i < len(ents); i++ {
+				r := s.ref.dyn[len(ents)-1-i]
+				same = ents[i].Name == r.Name && ents[i].Value == r.Value
+			}
+			if !same {
+				key := "table-diverges"
+				if everOff {
+					key = "table-diverges-emit-off"
+				}
+				rec.Fail(tb, key, s.w, "after block %x (%s delivery, emit control %+v) the decoder's dynamic table is %v (size %d, max %d); RFC 7541 gives %v (newest first; size %d, max %d)", block, d.name, step.Emit, ents, size, max, s.ref.dyn, s.ref.size, s.ref.max)
+				return false
+			}
+		}
+	}
+	s.emitOn = emitEnd
 	return refE == nil && xOK && wErr == nil && sErr == nil
 }
 
@@ -656,6 +790,7 @@ func c31Replay(t *testing.T, rec *ev.Rec, path string) {
 	s := newC31Session(f.Witness.Tab, f.Witness.MaxStr)
 	for _, st := range f.Witness.Steps {
 		blk, _ := hex.DecodeString(st.Block)
+		s.nextEmit = st.Emit
 		if !s.feed(t, rec, st.Allowed, blk, st.Cuts, blockInfo{intent: st.Intent}) {
 			break
 		}
@@ -663,6 +798,46 @@ func c31Replay(t *testing.T, rec *ev.Rec, path string) {
 }
 
 // c31Sweep enumerates the constructed violation classes deterministically.
+// c31EmitSweep: what Framer.readMetaFrame does after an invalid field - emission switched off from
+// the emit callback, the rest of the block decoded "to stay in sync" - then later blocks using the
+// entries inserted meanwhile; and index / size-update errors while emission is off.
+func c31EmitSweep(t *testing.T, rec *ev.Rec) {
+	lit := func(first byte, name, value string, huff bool) []byte {
+		return refAppendString(refAppendString([]byte{first}, name, huff, 0), value, huff, 0)
+	}
+	for _, huff := range []bool{false, true} {
+		for _, cuts := range [][]int{nil, {1, 2, 3, 5, 8, 13, 21, 30}} {
+			for off := 1; off <= 3; off++ {
+				s := newC31Session(4096, 0)
+				b1 := append(lit(0x40, "Bad-Name", "x", huff), lit(0x40, "x-new", "value-1", huff)...)
+				b1 = append(b1, refAppendString([]byte{0x40 | 32}, "a=b", huff, 0)...) // cookie (static name 32), indexed
+				b1 = append(b1, lit(0x00, "x-plain", "p", huff)...)
+				s.nextEmit = &emitSpec{Start: 1, OffAfter: off}
+				if !s.feed(t, rec, -1, b1, cuts, blockInfo{intent: "sweep:emit-off", huff: huff}) {
+					continue
+				}
+				// next block: full index of and name reference to the entries inserted while emission was off
+				b2 := []byte{0x80 | 62, 0x80 | 63, 0x80 | 64}
+				b2 = append(b2, refAppendString([]byte{0x00 | 15, 63 - 15}, "other", huff, 0)...)
+				s.nextEmit = &emitSpec{Start: 1}
+				if !s.feed(t, rec, -1, b2, cuts, blockInfo{intent: "sweep:emit-off-followup", huff: huff, indexed: true}) {
+					continue
+				}
+				// invalid references while emission is off must still be decoding errors
+				for _, bad := range [][]byte{{0x82, 0x80}, {0x82, 0x80 | 65}, append([]byte{0x82}, refAppendString([]byte{0x40 | 63, 10}, "v", huff, 0)...), append([]byte{0x82}, refAppendString([]byte{0x0f, 65 - 15}, "v", huff, 0)...), {0x82, 0x3f, 0xe2, 0x1f}} {
+					c := newC31Session(4096, 0)
+					c.nextEmit = &emitSpec{Start: 1}
+					if !c.feed(t, rec, -1, b1, nil, blockInfo{intent: "history"}) {
+						continue
+					}
+					c.nextEmit = &emitSpec{Start: 1, OffAfter: 1}
+					c.feed(t, rec, -1, bad, cuts, blockInfo{intent: "sweep:emit-off-error", indexed: true})
+				}
+			}
+		}
+	}
+}
+
 func c31Sweep(t *testing.T, rec *ev.Rec) {
 	// history: three dynamic entries
 	pre := []byte{0x40, 0x03, 'x', '-', 'a', 0x02, 'v', '1', 0x40, 0x03, 'x', '-', 'b', 0x02, 'v', '2', 0x41, 0x01, 'h'}
@@ -754,6 +929,21 @@ func c31Sweep(t *testing.T, rec *ev.Rec) {
 	}
 }
 
+// genEmitSpec draws how the consumer drives SetEmitEnabled around a block of n octets.
+func genEmitSpec(rt *rapid.T, n int) *emitSpec {
+	sp := &emitSpec{Start: rapid.SampledFrom([]int{1, 1, 1, 1, -1, 0}).Draw(rt, "emit-start")}
+	if rapid.IntRange(0, 2).Draw(rt, "emit-off-by-callback") > 0 {
+		sp.OffAfter = rapid.IntRange(1, 4).Draw(rt, "emit-off-after")
+	}
+	if n >= 2 && rapid.IntRange(0, 2).Draw(rt, "emit-toggle-between-fragments") == 0 {
+		k := rapid.IntRange(1, 2).Draw(rt, "n-toggles")
+		for i := 0; i < k; i++ {
+			sp.Frag = append(sp.Frag, fragToggle{At: rapid.IntRange(1, n-1).Draw(rt, "toggle-at"), On: rapid.IntRange(0, 2).Draw(rt, "toggle-on") == 0})
+		}
+	}
+	return sp
+}
+
 func TestC31(t *testing.T) {
 	rec := ev.New("C31", c31Rule)
 	if p := os.Getenv("VERIF_REPLAY_JSON"); p != "" {
@@ -761,6 +951,7 @@ func TestC31(t *testing.T) {
 		return
 	}
 	c31Sweep(t, rec)
+	c31EmitSweep(t, rec)
 	for _, in := range corpusInputs("FuzzC31") {
 		c31FuzzOne(t, rec, in)
 	}
@@ -785,6 +976,11 @@ func TestC31(t *testing.T) {
 			wantV := rapid.IntRange(0, 99).Draw(rt, "violate") < 15+15*i
 			blk, info := genBlock(rt, stForGen, wantV)
 			cuts := genCuts(rt, len(blk))
+			if rapid.IntRange(0, 3).Draw(rt, "emit-control") == 0 {
+				s.nextEmit = genEmitSpec(rt, len(blk))
+			} else if !s.emitOn {
+				s.nextEmit = &emitSpec{Start: 1} // the consumer re-enables emission for the next block
+			}
 			if i == 0 {
 				rec.Sample(map[string]any{"table_size": tab, "max_string_len": maxStr, "blocks": nblocks, "first_block_hex": hex.EncodeToString(blk), "intent": info.intent, "cuts": cuts})
 			}
@@ -826,6 +1022,9 @@ func c31FuzzOne(t ev.TB, rec *ev.Rec, data []byte) {
 		for i := step; i < len(blk) && len(cuts) < 64; i += step {
 			cuts = append(cuts, i)
 		}
+	}
+	if data[1]&0x40 != 0 {
+		s.nextEmit = &emitSpec{Start: 1, OffAfter: 1 + int(data[2]>>4)&3}
 	}
 	s.feed(t, rec, -1, blk, cuts, blockInfo{intent: "fuzz-input"})
 }
